@@ -48,8 +48,7 @@ D(desc, res, i0, i1) == [desc |-> desc, res |-> res, i0 |-> i0, i1 |-> i1, s0 |-
 NoPar == [join |-> "none", jchunks |-> TRUE, dshape |-> <<>>, cshape |-> <<>>, mult |-> 0]
 
 Min2(a, b) == IF a < b THEN a ELSE b
-RECURSIVE SumSeq(_, _)
-SumSeq(s, i) == IF i > Len(s) THEN 0 ELSE s[i] + SumSeq(s, i + 1)
+SumSeq(s, i) == FoldFunction(LAMBDA x, y : x + y, 0, [k \in i..Len(s) |-> s[k]])     \* s[i] + ... (no deep recursion)
 RECURSIVE ProdSeq(_, _)
 ProdSeq(s, i) == IF i > Len(s) THEN 1 ELSE s[i] * ProdSeq(s, i + 1)
 Idx(d) == d.i0..(d.i1 - 1)
@@ -95,8 +94,7 @@ Shape(p, rows) ==
 Summands(A, b) ==
     IF A = 0 THEN <<0>>
     ELSE LET n == (A + b - 1) \div b IN [i \in 1..n |-> IF i * b <= A THEN b ELSE A - (i - 1) * b]
-RECURSIVE Repeat(_, _)
-Repeat(s, n) == IF n = 0 THEN <<>> ELSE s \o Repeat(s, n - 1)
+Repeat(s, n) == [i \in 1..(Len(s) * n) |-> s[((i - 1) % Len(s)) + 1]]
 
 PerDatum(p) == p.join = "concat" /\ ~p.jchunks /\ Len(p.cshape) > 0
 Chunks(p, rows) ==
